@@ -23,6 +23,7 @@ one() {
       tools/expect/*) want="$want C19";;
       tools/*) want="$want C20";;
       cmd/mcrew/*) want="$want C16 C14";;
+      crew/*) want="$want C16";;
     esac; done
     caught=""
     own=${name%%-*}
